@@ -99,6 +99,44 @@ def natural_loops(b):
     return loops, irreducible, dom
 
 
+FINITE_COLLECTION = re.compile(r"^(&(mut )?)?(std::vec::Vec<|std::collections::(HashMap|HashSet|BTreeMap|BTreeSet|VecDeque)<|\[.*\]$|std::option::Option<)")
+
+
+def _concrete_source_type(b, next_term, depth=12):
+    """type of the value a generic iterator was made from, walking back from `next(&mut it)` through `it = into_iter(x)`, moves and
+    reborrows to the first local whose declared type is concrete; a std collection counts as its (finite) iterator"""
+    defs = mu.defs_of(b)
+    cur = mu.op_local(next_term["args"][0])
+    for _ in range(depth):
+        if cur is None:
+            return None
+        ts = b.local_ty(cur)["s"]
+        if "impl " not in ts and " as " not in ts:
+            inner = ts[5:] if ts.startswith("&mut ") else ts[1:] if ts.startswith("&") else ts
+            if FINITE_COLLECTION.match(inner):
+                return "std::vec::IntoIter<>"        # into_iter of a finite collection
+            return inner
+        d = mu.single_def(defs, cur)
+        if d is None:
+            return None
+        if d[1] == "term":
+            tt = d[2]
+            nm = tt["callee"]["def"] if tt.get("callee") else ""
+            if nm.endswith("IntoIterator>::into_iter") or nm.endswith("IntoIterator::into_iter"):
+                cur = mu.op_local(tt["args"][0])
+                continue
+            return None
+        rv = d[2]
+        if rv.get("k") == "ref" and (not rv["pl"]["p"] or rv["pl"]["p"] == ["d"]):
+            cur = rv["pl"]["l"]
+            continue
+        if rv.get("k") == "use" and rv["op"].get("o") in ("copy", "move") and not rv["op"]["pl"]["p"]:
+            cur = rv["op"]["pl"]["l"]
+            continue
+        return None
+    return None
+
+
 def check_loop(ctx, b, an, h, info, dom):
     """returns (template or None, explanation)"""
     body, latches = info["body"], info["latches"]
@@ -113,6 +151,9 @@ def check_loop(ctx, b, an, h, info, dom):
         if not all(bi in dom[l] for l in latches):
             continue
         recv_t = b.ty(c["targs"][0])["s"] if c["targs"] else ""
+        if not finite_iter_type(recv_t):
+            # a generic iterator (`impl IntoIterator` parameter of a helper inlined back): what it was created from in this body
+            recv_t = _concrete_source_type(b, t) or recv_t
         if not finite_iter_type(recv_t):
             # a local iterator type: terminates if its own `next` does and it is exhausted eventually; not assumed
             continue
@@ -201,7 +242,7 @@ def check_loop(ctx, b, an, h, info, dom):
                     per_key.setdefault(k, []).append(rel)
                     okb = False
                     for k2, v2 in S2.store.items():
-                        if k2.startswith("len:_") and v2[0] == "lin" and len(v2[1].t) == 1 and \
+                        if (k2.startswith("len:_") or k2.startswith("len:(*_1).")) and v2[0] == "lin" and len(v2[1].t) == 1 and \
                                 entails(S2.facts, an.iv, v - v2[1] - 70000, an.depth):
                             okb = "len(%s)" % k2[4:]
                     if not okb and entails(S2.facts, an.iv, v - 1000000, an.depth):
